@@ -176,11 +176,78 @@ def run(chk, F, tier):
         is_arg(ps[0].calls()[0][2][1], 2) and cc.const_int(ps[0].calls()[0][2][2]) == 1 and is_arg(peel_ref(ps[0].calls()[0][2][0]), 1)
     chk.expect("S2.update", "update", oku, "update(n) is not update_many(n, 1) on self")
 
-    # ---- add
+    # ---- add: every field of self becomes self.F + rhs.F; array fields element by element with the same position
     b = F.body(IMPL + "::add")
     RHS = ("deref", ("arg", 2, "rhs"))
     seen_add = set()
-    for p in mir.Walker(b, unroll=0).run():
+    adt = [F.adts[STATS]] if STATS in F.adts else []
+
+    def array_len_name(f):
+        """the const parameter naming the length of array field f, from the struct definition"""
+        import re
+        for a in adt:
+            for v in a.get("variants", []):
+                for fl in v.get("fields", []):
+                    if fl["name"] == f:
+                        m = re.search(r";\s*(\w+)\]", fl["ty"])
+                        return m.group(1) if m else None
+        return None
+
+    def element_pair(p, key, val):
+        """(field of self, field of rhs, ok, why) for a store `elem = elem + other` into an element of an array of self"""
+        if not (isinstance(val, tuple) and val[0] == "binop" and val[1] == "Add"):
+            return None
+        other = val[3] if val[2] == key else val[2] if val[3] == key else None
+        if other is None:
+            return None
+        exk, exo = mir.expand(key, p), mir.expand(other, p)
+        fs, fr = fields_in(exk, SELF, set()), fields_in(exo, RHS, set())
+        if len(fs) != 1:
+            return None
+        f = list(fs)[0]
+        why = None
+        ok = fr == fs
+        if not ok:
+            return f, fr, False, "pairs self.%s with rhs.%s" % (f, sorted(fr))
+        k1 = key[1] if key[0] == "deref" else None
+        if key[0] == "deref" and isinstance(k1, tuple) and k1[0] == "field" and some_payload(k1[1]) is not None:
+            nx = some_payload(k1[1])
+            if k1[2] == "0" and other == ("deref", ("field", k1[1], "1")):
+                pass                                                   # zip(self.F.iter_mut(), rhs.F.iter()): same step of one zip
+            elif k1[2] == "1" and other[0] == "index" and cc.strip_casts(other[2]) == ("field", k1[1], "0"):
+                if not enumerate_is_positional(mir.expand(nx, p)):     # enumerate(): the index must be the element's position
+                    ok, why = False, "the index used for rhs.%s is not the position of the element of self.%s" % (f, f)
+            else:
+                ok, why = False, "element of self.%s is combined with %s (not the element at the same position)" % (f, mir.fmt(other)[:60])
+        elif key[0] == "index":
+            i = cc.strip_casts(key[2])
+            if not (other[0] == "index" and cc.strip_casts(other[2]) == i):
+                ok, why = False, "self.%s[i] is combined with %s" % (f, mir.fmt(other)[:60])
+            else:
+                # the index runs over the whole array: 0..N with N the field's own length (constant parameter or .len())
+                exi = mir.expand(i, p)
+                bound_ok = False
+                want = array_len_name(f)
+
+                def scan(t):
+                    nonlocal bound_ok
+                    if isinstance(t, tuple) and t:
+                        if t[0] == "agg" and len(t) > 4 and str(t[2]).endswith("ops::Range") and len(t[4]) == 2:
+                            st_, en = t[4]
+                            en = cc.strip_casts(en)
+                            zero = cc.const_int(st_) == 0
+                            if zero and ((en[0] == "cparam" and en[1] == want) or (en[0] == "app" and en[1].endswith("::len") and (fields_in(en, SELF, set()) | fields_in(en, RHS, set())) == {f})):
+                                bound_ok = True
+                        for x in t:
+                            scan(x)
+                scan(exi)
+                if not bound_ok:
+                    ok, why = False, "the index loop over self.%s does not run over 0..%s (its own length)" % (f, want)
+        else:
+            ok, why = False, "unrecognised element update %s" % mir.fmt(key)[:60]
+        return f, fr, ok, why
+
+    for p in mir.InlineWalker(b, F, unroll=0).run():
         for e in p.events:
             if e[0] != "store":
                 continue
@@ -191,19 +258,15 @@ def run(chk, F, tier):
                 if f not in seen_add:
                     chk.expect("S1.fields", "add:" + f, ok, "add: self.%s = %s (expected self.%s + rhs.%s)" % (f, mir.fmt(val), f, f))
                 seen_add.add(f)
-            elif key[0] == "deref":
-                # zip element: *a += *b with a from self.F, b from rhs.F
-                k2 = cc.strip_casts(key[1])
-                nx = some_payload(k2[1]) if (k2[0] == "field" and k2[2] == "0") else None
-                if nx is None:
+            elif key[0] in ("deref", "index"):
+                r = element_pair(p, key, val)
+                if r is None:
                     continue
-                ex = mir.expand(nx, p)
-                fs, fr = fields_in(ex, SELF, set()), fields_in(ex, RHS, set())
-                ok = len(fs) == 1 and fs == fr and val[0] == "binop" and val[1] == "Add" and val[2] == key and \
-                    val[3] == ("deref", ("field", k2[1], "1"))
-                f = list(fs)[0] if len(fs) == 1 else "?"
+                f, fr, ok, why = r
                 if f not in seen_add:
-                    chk.expect("S1.fields", "add:" + f, ok, "add: array element update pairs self.%s with rhs.%s: %s" % (sorted(fs), sorted(fr), mir.fmt(val)[:80]))
+                    chk.expect("S1.fields", "add:" + f, ok, "add: array field %s: %s" % (f, why or "bad update %s" % mir.fmt(val)[:80]))
+                elif not ok:
+                    chk.bad("S1.fields", "add:%s:path" % f, "add: array field %s: %s" % (f, why))
                 seen_add.add(f)
     for f in fields:
         if f not in seen_add:
@@ -211,14 +274,32 @@ def run(chk, F, tier):
 
     # ---- best_code
     b = F.body(IMPL + "::best_code")
-    names = {l["name"]: int(l["id"]) for l in b["locals"] if l["name"]}
-    lb, lc = names.get("best"), names.get("best_code")
-    paths = mir.Walker(b, unroll=0).run()
+    # the running (code, cost) pair is whatever ends up in the returned tuple: found from the return value, not from local names
+    paths = mir.InlineWalker(b, F, unroll=0).run()
+    lb = lc = lt = None
+    for p in paths:
+        if p.end[0] != "return" or not (isinstance(p.ret, tuple) and p.ret[0] == "tuple" and len(p.ret[1]) == 2):
+            continue
+        code_t, best_t = p.ret[1]
+        users = [int(l["id"]) for l in b["locals"] if l.get("user") or l.get("name")]
+        for l in users:
+            v = p.env.get(l)
+            if v == p.ret and lt is None:
+                lt = l
+            if v == best_t and lb is None:
+                lb = l
+            if v == code_t and lc is None:
+                lc = l
+        break
     cand_seen = set()
     offs_best = {}
     nret = 0
     for p in paths:
-        best, code = p.env.get(lb), p.env.get(lc)
+        if lt is not None and (lb is None or lc is None):
+            tv = p.env.get(lt)
+            best, code = (tv[1][1], tv[1][0]) if (isinstance(tv, tuple) and tv[0] == "tuple" and len(tv[1]) == 2) else (None, None)
+        else:
+            best, code = p.env.get(lb), p.env.get(lc)
         if best is None or code is None:
             continue
         # consistency of the current (best, best_code) pair
@@ -252,7 +333,7 @@ def run(chk, F, tier):
             nret += 1
             okr = p.ret == ("tuple", (code, best))
             if not okr:
-                chk.bad("S3.best", "ret", "best_code returns %s, not (best_code, best)" % mir.fmt(p.ret)[:100])
+                chk.bad("S3.best", "ret", "best_code returns %s, not the running (code, cost) pair" % mir.fmt(p.ret)[:100])
         # minimum scan: every comparison is `candidate <(=) current best`; a taken branch makes the candidate the new best
         cur = ("field", SELF, "unary")
         for (t, op, v) in p.constraints:
